@@ -9,29 +9,19 @@ RULE = ("harness c04: real secrets, GGSW / tensor / switching / automorphism key
         "cmux / cmux_assign / cmux_assign_neg with bit 0 and 1, fresh GGSW cells, ggsw_from_gglwe, ggsw_expand_row, ggsw_keyswitch(_assign), "
         "ggsw_automorphism(_assign); ranks 1..3, dsize 1..4, dnum smaller/equal/larger than needed, GGSW precision below/above the GLWE "
         "precision, input/GGSW/output radix mismatches, m2 in {0, 1, -1, X^k, -X^k, small dense}, inputs with uniform/extreme/alternating/sparse "
-        "digits.  Level L1 (4001/4002, 4010 with dsize <= 2): output limbs recomputed bit for bit by the extracted model.  Level L2 (all): "
+        "digits.  Level L1 (4001/4002, 4010): output limbs recomputed bit for bit by the extracted model.  Level L2 (all): "
         "exact phases, m1*m2 by exact negacyclic product, deterministic envelope, every GGSW cell against m2 (resp. s_col (x) m2) * gadget; two "
         "scratch fills; cross-backend byte identity inside the common magnitude domain.  distinct = distinct (op, params, inputs) lines")
 ASSUMPTIONS = [
     "proof over exact products (as C03); key-row / GGSW-cell statement is a named Section hypothesis of the phase theorems, checked on every fresh GGSW by the oracle (4020)",
     "cmux is specified for one common radix of t, f, res and the GGSW (the internal product asserts it)",
-    "row expansion / GGSW key-switch / automorphism take a scratch space larger than the declared tmp_bytes (C12's property)",
+    "every operation runs in exactly its declared tmp_bytes",
 ]
 TRUSTED = ["secret coefficients are read through glwe_decrypt of a crafted ciphertext"]
 
 
 def classify(record):
-    try:
-        code, ps, vs, outs = K.parse(record)
-    except Exception:
-        return None
-    x = ps[18:]
-    if code in (4010, 4011, 4012) and ps[13] >= 3 and not outs.startswith("PANIC"):
-        fl = K.flags_of(vs)
-        if fl and fl[0] == 0:
-            return "cmux.dsize_ge3.stale_accumulator"
-    if code == 4003 and outs.startswith("PANIC") and len(x) > 6 and x[6] > x[5] and "out of range" in outs:
-        return "gglwe_external_product.res_dnum_gt_a_dnum.oob"
+    # no open finding class: cmux.dsize_ge3.stale_accumulator (8b73cd8) and gglwe_external_product.res_dnum_gt_a_dnum.oob (eed0d4a) were repaired
     return None
 
 
